@@ -73,7 +73,7 @@ Definition fields_repr (ps : pschema) (ss : list psel) (dname : string) : list p
 Fixpoint uniq_strs (l : list string) (seen : list string) : list string :=
   match l with [] => [] | x :: r => if mem x seen then uniq_strs r seen else x :: uniq_strs r (x :: seen) end.
 
-Definition typename_helper : psel := PField "" "__typename" "String" [].
+Definition typename_helper : psel := PField "__typename" "__typename" "String" [].
 
 (* formatSelectionSetForInterface *)
 Definition format_iface (tm : tmap) (ps : pschema) (parent : string) (ss : list psel) (loc : string) : list psel :=
